@@ -3002,11 +3002,46 @@ pub mod verif_gc {
     pub fn step(t: &mut VmGreenThread) {
         match t.gc_state {
             GcState::Idle => t.start_mark_phase(),
-            GcState::Marking => {
-                let mut one = 1usize;
-                t.process_gray(&mut one);
-            }
+            GcState::Marking => step_marking(t),
             GcState::Sweeping { .. } => t.sweep(1),
+        }
+    }
+
+    fn is_static(t: &VmGreenThread, h: *mut ObjectHeader) -> bool {
+        t.shared.static_strings.iter().any(|s| *s as usize == h as usize)
+    }
+
+    fn real_gray_entries(t: &VmGreenThread) -> bool {
+        t.gray_stack.iter().any(|h| !is_static(t, *h))
+    }
+
+    /// One marking increment as the abstract snapshot sees it.  The write barrier may push a static string
+    /// (an immortal leaf outside the collected heap, hidden from the snapshot's roots, children and gray
+    /// stack); popping such an entry does nothing but consume a budget unit, so those pops are merged into
+    /// the neighbouring increment: exactly one collected object is blackened, or — when no collected object
+    /// is gray — the static entries are drained so that `process_gray`'s end-of-call test runs once.
+    fn step_marking(t: &mut VmGreenThread) {
+        let drain = |t: &mut VmGreenThread| loop {
+            let mut one = 1usize;
+            t.process_gray(&mut one);
+            if t.gc_state != GcState::Marking || t.gray_stack.is_empty() || real_gray_entries(t) {
+                break;
+            }
+        };
+        if !real_gray_entries(t) {
+            drain(t);
+            return;
+        }
+        loop {
+            let top_static = t.gray_stack.last().map(|h| is_static(t, *h)).unwrap_or(false);
+            let mut one = 1usize;
+            t.process_gray(&mut one);
+            if !top_static {
+                break;
+            }
+        }
+        if t.gc_state == GcState::Marking && !t.gray_stack.is_empty() && !real_gray_entries(t) {
+            drain(t);
         }
     }
 
@@ -3086,10 +3121,12 @@ pub mod verif_gc {
             write!(s, "{k}").unwrap();
         }
         s.push_str(" gray=");
-        for (j, k) in t.gray_stack.iter().enumerate() {
-            if j > 0 {
+        let mut first = true;
+        for k in t.gray_stack.iter().filter(|h| !is_static(t, **h)) {
+            if !first {
                 s.push(',');
             }
+            first = false;
             write!(s, "{}", *k as usize).unwrap();
         }
         s
